@@ -323,6 +323,7 @@ where
                 // which one came last
                 let mut counted: Option<usize> = None;
                 let mut last_seen: Option<Option<u32>> = None;
+                let mut polled_after_end: Option<u32> = None;
                 {
                     let mut it = self.sut.iter_by_range(SegRange { min: R::from_i64(lo), max: R::from_i64(hi) }, t);
                     match take {
@@ -341,14 +342,27 @@ where
                         }
                         _ => {
                             let mut n = 0;
+                            let mut exhausted = false;
                             while take < 0 || n < take {
                                 match it.next() {
                                     Some(v) => got.push(v.id),
-                                    None => break,
+                                    None => {
+                                        exhausted = true;
+                                        break;
+                                    }
                                 }
                                 n += 1;
                                 if got.len() > 4 * self.model.len() + 8 {
                                     break;
+                                }
+                            }
+                            if exhausted {
+                                // a caller that polls again (`by_ref()` loops do) must not be handed
+                                // anything a second time
+                                for _ in 0..2 {
+                                    if let Some(v) = it.next() {
+                                        polled_after_end = Some(v.id);
+                                    }
                                 }
                             }
                         }
@@ -363,6 +377,11 @@ where
                 }
                 if self.model.iter().any(|m| m.exp < t && m.blo <= d && c <= m.bhi) {
                     rep.counters.inc("query_over_expired_value");
+                }
+                if mon.query {
+                    if let Some(id) = polled_after_end {
+                        return Err(Fail::new("query:yields-after-exhaustion", format!("query buckets [{},{}] at t={}: the iterator returned None and then yielded value {} when polled again", c, d, t, id)));
+                    }
                 }
                 if mon.query {
                     rep.evaluations += 1;
